@@ -81,3 +81,18 @@ def ocd_targets(ref, prefix, costs, alphabet):
         if m == base:
             out.append(t)
     return out
+
+
+def lev_int(ref, hyp, ci, cd, cs):
+    """Two-row weighted Levenshtein with integer costs (for the large-instance passes)."""
+    R = len(ref)
+    prev = [r * cd for r in range(R + 1)]
+    for h in hyp:
+        cur = [prev[0] + ci] + [0] * R
+        for r in range(1, R + 1):
+            a = prev[r] + ci
+            b = prev[r - 1] + (0 if ref[r - 1] == h else cs)
+            c = cur[r - 1] + cd
+            cur[r] = a if (a <= b and a <= c) else (b if b <= c else c)
+        prev = cur
+    return prev[R]
